@@ -55,6 +55,19 @@ def shapes_of(toks):
                     if a[1] in ('int', 'intn', 'pushint', 'pushintn', 'intc'):
                         # Fee is repaired (F02b); GroupSize / GroupIndex are the known finding F02
                         tags.add('constLeftFee' if b[2][-1] == 'Fee' else 'constLeft')
+        # a Fee read whose comparison operand is not a directly pushed integer: something stands between the read, the
+        # constant and the comparison (stack shuffling, arithmetic, a run-time value) -- the stack AST hands the tool an
+        # unknown comparand, which its documented heuristic treats as a bound (known finding F26 for C01)
+        if (op == 'txn' and args and args[-1] == 'Fee') or (op in ('gtxn', 'gtxns') and args and args[-1] == 'Fee'):
+            j = k + 1
+            while j < n and j <= k + 10 and ops[j][1] != 'cmp' and ops[j][1] not in ('label', 'b', 'bz', 'bnz', 'assert', 'ret', 'err', 'callsub', 'retsub', 'switch', 'match'):
+                j += 1
+            if j < n and j <= k + 10 and ops[j][1] == 'cmp':
+                between = [o[1] for o in ops[k + 1:j]]
+                pushes = ('int', 'intn', 'pushint', 'pushintn', 'intc')
+                direct = between == [] or (len(between) == 1 and between[0] in pushes)
+                if not direct:
+                    tags.add('feeUnknownOperand')
         if op in ('b', 'bz', 'bnz') and labels.get(args[0], n) < k:
             lo = labels[args[0]]
             if any(ops[j][1] in ('gtxn', 'gtxnimm', 'gtxns', 'gtxnstk') for j in range(lo, k)):
